@@ -1,6 +1,6 @@
 (* How many of the generated core-fragment specifications fall in the scope of C01_answer_sets_are_the_models_partial
    (a decidable rendering of `covered`, `no_definition` and `separated`). *)
-Require Import Coq.Strings.String Coq.Lists.List Coq.Bool.Bool.
+Require Import Coq.Strings.String Coq.Lists.List Coq.Bool.Bool Coq.ZArith.ZArith.
 Require Import Cnl2aspV.Base.Util Cnl2aspV.Cnl.Comparison Cnl2aspV.Cnl.Core Cnl2aspV.Cnl.CoreCases Cnl2aspV.Cnl.CoreProgram Cnl2aspV.Cnl.CoreStable.
 Import ListNotations.
 
@@ -18,6 +18,11 @@ Definition coveredb (s : spec) (x : sentence) : bool :=
       declaredb s (ch_subj c) && declaredb s (ch_obj c) && nodupb (dom_of s (ch_obj c)) && negb (String.eqb sv ov) &&
       match ch_foreach c with None => true
                          | Some e => declaredb s e && negb (String.eqb (auto_var s e) sv) && negb (String.eqb (auto_var s e) ov) end
+  | SOneOf l vals (SCons _ [] [cl] None) =>
+      let smallb := fun z => (Z.ltb (- 10 ^ 20) z && Z.ltb z (10 ^ 20))%Z in
+      String.eqb l (cl_slabel cl) && negb (String.eqb (cl_slabel cl) (cl_olabel cl)) && declaredb s (cl_subj cl) && declaredb s (cl_obj cl) &&
+      forallb smallb vals &&
+      match find_concept s (cl_subj cl) with Some c => match c_dom c with DRange lo hi => smallb lo && smallb hi | DEnum _ => false end | None => false end
   | _ => false
   end.
 Definition kcase_in_scope (c : kcase) : bool :=
